@@ -1085,7 +1085,7 @@ pub fn check_exact_stats(node: &MonNode, name: &str, stats: &Statistics, batches
     }
     let fire = |kind: &str, col: Option<usize>, declared: Json, actual: Json, out: &mut Vec<Finding>| {
         out.push(Finding {
-            sig: format!("{sigp}-{kind}/{name}"),
+            sig: format!("{sigp}-{kind}/{name}{}", if scope.starts_with("partition") { "@partition" } else { "" }),
             detail: json!({
                 "what": format!("a statistic reported as Precision::Exact differs from the value computed from the node's fully drained output ({scope})"),
                 "node": node_json(node), "scope": scope, "statistic": kind, "column": col,
@@ -1171,7 +1171,10 @@ pub fn check_exact_stats(node: &MonNode, name: &str, stats: &Statistics, batches
                 }
             }
         }
-        if let Precision::Exact(n) = &cs.distinct_count {
+        if let (Precision::Exact(_), 0) = (&cs.distinct_count, act.non_null) {
+            // like min / max: a distinct count over an output without any value is vacuous
+            tally.add(&format!("{tp}exact_distinct_vacuous"), name, 1);
+        } else if let Precision::Exact(n) = &cs.distinct_count {
             tally.add(&format!("{tp}exact_distinct"), name, 1);
             // whether NULL counts as a distinct value is not documented: accept both readings
             let ok = *n == act.distinct || (act.nulls > 0 && *n == act.distinct + 1);
@@ -1183,15 +1186,19 @@ pub fn check_exact_stats(node: &MonNode, name: &str, stats: &Statistics, batches
 }
 
 /// Whole-plan and per-partition exact-statistics check of one node.
-pub fn check_statistics(node: &MonNode, obs: &NodeObs, tally: &mut Tally, corrupt: Corrupt) -> Vec<Finding> {
+pub fn check_statistics(node: &MonNode, obs: &NodeObs, twin: Option<&Arc<dyn ExecutionPlan>>, tally: &mut Tally, corrupt: Corrupt) -> Vec<Finding> {
     let mut out = vec![];
     let name = obs.name.clone();
+    // statistics come from the unwrapped twin node when there is one (no wrapper in the statistics walk)
+    let stats_plan: &dyn ExecutionPlan = twin.map(|t| t.as_ref()).unwrap_or(node.inner.as_ref());
+    tally.add(if twin.is_some() { "stats_from_unwrapped_twin" } else { "stats_from_wrapped_node" }, &name, 1);
+    let stats_of = |p: Option<usize>| StatisticsContext::new().compute(stats_plan, &StatisticsArgs::new().with_partition(p));
     if obs.rebuilt {
         tally.add("stats_skipped_rebuilt", &name, 1);
         return out;
     }
     if obs.complete {
-        match node_statistics(node, None) {
+        match stats_of(None) {
             Ok(s) => {
                 tally.add("stats_nodes_plan", &name, 1);
                 let all: Vec<RecordBatch> = obs.parts.iter().flat_map(|p| p.batches.iter().cloned()).collect();
@@ -1200,14 +1207,16 @@ pub fn check_statistics(node: &MonNode, obs: &NodeObs, tally: &mut Tally, corrup
             Err(_) => tally.add("stats_error", &name, 1),
         }
         // second source: the pluggable statistics registry with its built-in providers
+        // (only on the unwrapped twin: the providers identify operators by downcast, which the wrapper delegates)
         let reg = datafusion::physical_plan::operator_statistics::StatisticsRegistry::default_with_builtin_providers();
-        match reg.compute_base(node.inner.as_ref()) {
-            Ok(s) => {
+        match twin.map(|t| reg.compute_base(t.as_ref())) {
+            None => {}
+            Some(Ok(s)) => {
                 tally.add("stats_nodes_registry", &name, 1);
                 let all: Vec<RecordBatch> = obs.parts.iter().flat_map(|p| p.batches.iter().cloned()).collect();
                 check_exact_stats(node, &name, &s, &all, "plan (statistics registry, built-in providers)", tally, Corrupt::default(), &mut out);
             }
-            Err(_) => tally.add("stats_registry_error", &name, 1),
+            Some(Err(_)) => tally.add("stats_registry_error", &name, 1),
         }
     } else {
         tally.add("stats_skipped_not_drained", &name, 1);
@@ -1216,7 +1225,7 @@ pub fn check_statistics(node: &MonNode, obs: &NodeObs, tally: &mut Tally, corrup
         if !obs.part_complete(p) {
             continue;
         }
-        match node_statistics(node, Some(p)) {
+        match stats_of(Some(p)) {
             Ok(s) => {
                 tally.add("stats_nodes_partition", &name, 1);
                 check_exact_stats(node, &name, &s, &obs.parts[p].batches, &format!("partition {p}"), tally, Corrupt::default(), &mut out);
@@ -1420,6 +1429,11 @@ pub struct MonRun {
     pub plan_text: String,
     /// the second planning (for the unwrapped run) displayed differently from the first
     pub replanned_differs: bool,
+    /// nodes of the UNWRAPPED twin plan in pre-order, aligned with `wrapped.nodes` (None when the two
+    /// plannings differ): statistics are taken from these, so that no wrapper is in the walk
+    pub twin: Option<Vec<Arc<dyn ExecutionPlan>>>,
+    /// output schema of the analyzed + optimized logical plan
+    pub optimized_schema: Option<SchemaRef>,
 }
 
 impl MonRun {
@@ -1449,9 +1463,9 @@ pub async fn run_monitored_df(ctx: &SessionContext, df: DataFrame) -> Outcome {
 
 pub async fn run_monitored_df_with(ctx: &SessionContext, df: DataFrame, probe: Option<Probe>) -> Outcome {
     let logical_schema: SchemaRef = Arc::new(df.schema().as_arrow().clone());
-    let n_sorts = match ctx.state().optimize(df.logical_plan()) {
-        Ok(p) => logical_sorts(&p),
-        Err(_) => 0,
+    let (n_sorts, optimized_schema) = match ctx.state().optimize(df.logical_plan()) {
+        Ok(p) => (logical_sorts(&p), Some(Arc::new(p.schema().as_arrow().clone()) as SchemaRef)),
+        Err(_) => (0, None),
     };
     let plan1 = match df.clone().create_physical_plan().await {
         Ok(p) => p,
@@ -1468,6 +1482,18 @@ pub async fn run_monitored_df_with(ctx: &SessionContext, df: DataFrame, probe: O
     let text2 = datafusion::physical_plan::displayable(plan2.as_ref()).indent(false).to_string();
     // planning the same logical plan twice may pick a different (equivalent) plan; the guard is on results
     let replanned_differs = text2 != plan_text;
+    let twin = {
+        fn pre(p: &Arc<dyn ExecutionPlan>, out: &mut Vec<Arc<dyn ExecutionPlan>>) {
+            out.push(Arc::clone(p));
+            for c in p.children() {
+                pre(c, out);
+            }
+        }
+        let mut v = vec![];
+        pre(&plan2, &mut v);
+        let aligned = v.len() == wrapped.nodes.len() && v.iter().zip(wrapped.nodes.iter()).all(|(a, b)| a.name() == b.inner.name());
+        if aligned { Some(v) } else { None }
+    };
     let res_u = datafusion::physical_plan::collect(plan2, ctx.task_ctx()).await;
     match (res_w, res_u) {
         (Ok(w), Ok(u)) => {
@@ -1476,7 +1502,7 @@ pub async fn run_monitored_df_with(ctx: &SessionContext, df: DataFrame, probe: O
             if !crate::canon::multiset_eq(&rw, &ru) {
                 return Outcome::GuardMismatch(format!("wrapped run produced {} rows, unwrapped {} rows (or different values)", rw.len(), ru.len()));
             }
-            Outcome::Ok(Box::new(MonRun { wrapped, batches: w, logical_schema, shape, logical_sorts: n_sorts, plan_text, replanned_differs }))
+            Outcome::Ok(Box::new(MonRun { wrapped, batches: w, logical_schema, shape, logical_sorts: n_sorts, plan_text, replanned_differs, twin, optimized_schema }))
         }
         (Err(e), Err(_)) => Outcome::ExecError(e),
         (Err(e), Ok(_)) => Outcome::GuardMismatch(format!("only the wrapped run failed: {e}")),
@@ -2068,6 +2094,17 @@ where
             tally.flush(rep);
             let n = findings.len();
             for f in findings {
+                rep.count(&format!("violations_by_signature/{}", f.sig), 1);
+                // the report keeps 25 witnesses: write out at most 3 per signature so that every signature gets one
+                // (the totals per signature are in the counters)
+                let nth = rep.get_count(&format!("violations_by_signature/{}", f.sig));
+                if nth == 1 {
+                    // a compact first witness of EVERY signature goes into the evidence itself
+                    rep.extra(&format!("first_witness/{}", f.sig), json!({"sql": sql, "config": witness.get("config"), "registration": witness.get("registration").and_then(|r| r.get("mode")), "finding": f.detail, "physical_plan": run.plan_text}));
+                }
+                if nth > 2 {
+                    continue;
+                }
                 let mut w = witness.clone();
                 if let Some(o) = w.as_object_mut() {
                     o.insert("finding".into(), f.detail);
